@@ -8,4 +8,4 @@ for c in "$@"; do
   echo "=== $c with $(basename $(dirname $P))/$(basename $P)"
   /verif/check $c quick 2>&1 | grep -E "^(VIOLATION|KNOWN|violation class|C[0-9]+:|harness)" | cut -c1-300
 done
-cd /repo && git checkout -- . && echo reverted
+cd /repo && git checkout -- . && echo reverted; git -C /verif checkout -- evidence 2>/dev/null; find /verif/replays -name "*.json" -delete
